@@ -113,6 +113,8 @@ def check_absorb(ctx, P):
             if s[0] == "=" and s[1][1] and s[1][1][-1][0] == "i" and any(isinstance(p, list) and p[0] == "f" and p[2] == "state" for p in s[1][1]):
                 xs.append(s)
     ok = len(xs) == 1 and xs[0][2][0] == "bin" and xs[0][2][1] == "BitXor" and xs[0][2][2][0] in ("cp", "mv") and xs[0][2][2][1] == xs[0][1]
+    from . import spongeshape
+    ctx.guard("shape-eval", "sha3::Engine::process", lambda: spongeshape.check_process(ctx, P, thorough=getattr(ctx, "tier", "quick") == "thorough"))
     ctx.check(ok, "absorb", "sha3:xor", "state[k] = state[k] ^ data[j]", "the sponge no longer XORs input into its state", where=pr.where(), key="absorb:sha3:xor")
 
 
